@@ -64,7 +64,7 @@ func genD(t *rapid.T) CaseD {
 		case 4:
 			k.Addr = rapid.SliceOfN(rapid.Byte(), 16, 16).Draw(t, "ipv6")
 		default:
-			k.Addr = rapid.SliceOfN(rapid.ByteRange('a', 'z'), 1, 30).Draw(t, "domain")
+			k.Addr = genDomain(t)
 		}
 		k.Port = rapid.Uint16().Draw(t, "port")
 		if i < len(ages) {
